@@ -3152,7 +3152,16 @@ func (b *Bundle) Compile(log logger.Log, timer *helpers.Timer, mangleCache map[s
 			}
 			for _, outputFile := range outputFiles {
 				absPathKey := canonicalFileSystemPathForWindows(outputFile.AbsPath)
-				if sourceIndex, ok := sourceAbsPaths[absPathKey]; ok {
+				sourceIndex, ok := sourceAbsPaths[absPathKey]
+				if !ok {
+					// The output directory may be reached through a symbolic link. In that
+					// case the output path differs from the (real) path of the input file
+					// textually even though both name the same file.
+					if realPath, isReal := evalSymlinksOfParentDir(b.fs, outputFile.AbsPath); isReal {
+						sourceIndex, ok = sourceAbsPaths[canonicalFileSystemPathForWindows(realPath)]
+					}
+				}
+				if ok {
 					hint := ""
 					switch logger.API {
 					case logger.CLIAPI:
@@ -3215,6 +3224,24 @@ func (b *Bundle) Compile(log logger.Log, timer *helpers.Timer, mangleCache map[s
 // deterministic given that the entry point order is deterministic, since the
 // returned order is the postorder of the graph traversal and import record
 // order within a given file is deterministic.
+// This resolves symbolic links in the directory part of a path to a file that
+// may not exist yet (the nearest existing ancestor directory is resolved)
+func evalSymlinksOfParentDir(fs fs.FS, absPath string) (string, bool) {
+	suffix := fs.Base(absPath)
+	dir := fs.Dir(absPath)
+	for {
+		if realDir, ok := fs.EvalSymlinks(dir); ok {
+			return fs.Join(realDir, suffix), true
+		}
+		parent := fs.Dir(dir)
+		if parent == dir {
+			return "", false
+		}
+		suffix = fs.Join(fs.Base(dir), suffix)
+		dir = parent
+	}
+}
+
 func findReachableFiles(files []graph.InputFile, entryPoints []graph.EntryPoint) []uint32 {
 	visited := make(map[uint32]bool)
 	var order []uint32
